@@ -10,6 +10,7 @@ import (
 	"go.temporal.io/server/common/log/tag"
 	"google.golang.org/grpc/metadata"
 
+	"github.com/temporalio/s2s-proxy/common"
 	"github.com/temporalio/s2s-proxy/config"
 )
 
@@ -132,7 +133,7 @@ func c20Serve(srv *adminServiceProxyServer, mode int, cc, cs, sc, ss string) (re
 
 func verifHarness_C20_handler() {
 	verifConfig("preempt", 0)
-	mode := verifChoose("mode", 3) // 0 default, 1 LCM, 2 routing
+	mode := verifChoose("mode", 4) // 0 default, 1 LCM, 2 routing, 3 LCM with a shard count left out of the configuration
 	n := verifNondetInt("tableLen")
 	verifAssume(verifAnd(n >= 1, n <= 1<<30))
 	obs := NewReplicationStreamObserver(c20Logger{})
@@ -154,6 +155,12 @@ func verifHarness_C20_handler() {
 	case 2:
 		scc = config.ShardCountConfig{Mode: config.ShardCountRouting, LocalShardCount: 2, RemoteShardCount: 3}
 		rp = RoutingParameters{RoutingLocalShardCount: 2, DirectionLabel: "verif"}
+	case 3:
+		// what getLCMParameters hands the inbound server when localShardCount is missing: every stream's
+		// shard mapping then divides by zero, which must stay a per-stream error
+		scc = config.ShardCountConfig{Mode: config.ShardCountLCM, LocalShardCount: 0, RemoteShardCount: 6}
+		lcm = LCMParameters{LCM: common.LCM(0, 6), TargetShardCount: 0}
+		verifReach("lcm-mode-with-a-missing-count")
 	}
 	e := rtNewEnv(1, 1)
 	src := e.newSource(0)
@@ -193,6 +200,13 @@ func verifHarness_C20_handler() {
 	before := calls
 	returned2, err2 := c20Serve(srv, mode, "2", "1", "1", "3")
 	verifAssert(returned2, "following-well-formed-stream-is-served")
+	if mode == 3 {
+		// no stream can be mapped with this configuration: each one is rejected, none takes the process down
+		verifAssert(err2 != nil, "unmappable-stream-is-rejected-with-an-error")
+		verifAssert(balance == 0, "following-stream-bookkeeping-balanced")
+		verifAssert(!verifMutexHeld(&obs.streamGrowLock), "observer-lock-released-after-following-stream")
+		return
+	}
 	verifAssert(err2 == nil, "following-well-formed-stream-has-no-error")
 	verifAssert(calls == before+2 && balance == 0, "following-stream-bookkeeping-balanced")
 	verifAssert(!verifMutexHeld(&obs.streamGrowLock), "observer-lock-released-after-following-stream")
